@@ -56,6 +56,8 @@ def gen_obj(rng):
         obj['units'] = rng.choice(['s', 'ms', 'us'])
     if kind == 'dt_off' and rng.random() < 0.25:
         obj['tuples'] = True
+    if kind == 'ct_on' and rng.random() < 0.4:
+        obj['repeat'] = True
     if kind in ('dt_off', 'ct_off') and len(names) >= 2 and rng.random() < 0.4:
         obj['poison'] = rng.choice(names)
         obj['reps'] = max(obj['reps'], 2)
@@ -114,7 +116,8 @@ def calls_of(obj):
     half = max(1, n // 2)
     out = [('update', ('ct', 0, half))]
     if half < n:
-        out.append(('update', ('ct', half, n)))
+        # (windows that include both end points: the second batch may re-send the frontier sample of the first)
+        out.append(('update', ('ct', half - 1 if obj.get('repeat') else half, n)))
     return out
 
 
